@@ -21,7 +21,8 @@ RULE = ("seeded base circuits: one-qubit random Rz.Ry.Rz products and named gate
         "distinct = (n, gate sequence, method, target kind); non-trivial = V neither real nor symmetric, or a target "
         "different from V")
 MANDATORY = ["li_complex_nonsymmetric", "mle_complex_nonsymmetric", "gate_fidelity_other_target",
-             "gate_fidelity_same_target", "two_qubit_li", "two_qubit_entangling", "direct_herald"]
+             "gate_fidelity_same_target", "two_qubit_li", "two_qubit_entangling", "direct_herald",
+             "tomography_object_reused_after_edit"]
 DECIDING = ["li_postconditions", "mle_postconditions", "gate_fidelity_postconditions", "callback_pairs_answered"]
 BUDGET = {"quick": 40, "thorough": 600}
 ASSUMPTIONS = ["V = normalised dual-rail amplitude matrix of the base circuit (own permanent)", "LI choi and fidelity to "
@@ -59,7 +60,7 @@ def make_base(ctx, lw, rng, n):
         base.herald(0, pos)
         log.append(["herald", 0, pos])
         ctx.bucket("direct_herald")
-    return base, log, ent
+    return base, log, ent, off
 
 
 def run(ctx):
@@ -81,7 +82,7 @@ def run(ctx):
         if n == 2 and method == "MLE" and ctx.time_left() < 12:
             method = "GF"
         try:
-            base, log, ent = make_base(ctx, lw, rng, n)
+            base, log, ent, base_off = make_base(ctx, lw, rng, n)
         except Exception as e:  # noqa: BLE001
             ctx.count("construction_raised:" + type(e).__name__)
             circmon.drain()
@@ -98,10 +99,13 @@ def run(ctx):
         if n == 2 and ent:
             ctx.bucket("two_qubit_entangling")
         fp = circmon.circuit_fingerprint(base, with_unitary=True)
+        objs = {}
+        reuse_round = 0
         try:
+          while True:
             choi_ref = tomo.choi_from_unitary(v)
             if method == "LI":
-                pt = tomo.LIProcessTomography(n, base, experiment)
+                pt = objs.setdefault("pt", tomo.LIProcessTomography(n, base, experiment))
                 choi = pt.process()
                 ctx.count("li_postconditions")
                 if complex_nonsym: ctx.bucket("li_complex_nonsymmetric")
@@ -116,7 +120,7 @@ def run(ctx):
                     ctx.violation(f"LI fidelity against choi_from_unitary(V) is {fid:.9f}", case=case,
                                   mechanism="li_fidelity", monitor="LIProcessTomography.process post-condition")
             elif method == "MLE":
-                pt = tomo.MLEProcessTomography(n, base, experiment)
+                pt = objs.setdefault("pt", tomo.MLEProcessTomography(n, base, experiment))
                 choi = pt.process()
                 ctx.count("mle_postconditions")
                 if complex_nonsym: ctx.bucket("mle_complex_nonsymmetric")
@@ -143,7 +147,7 @@ def run(ctx):
                 if kind == "same" and rng.random() < 0.5:
                     target = target * np.exp(1j * rng.uniform(0, 6.28))      # a global phase is irrelevant
                 case["target"] = kind
-                gf = tomo.GateFidelity(n, base, experiment)
+                gf = objs.setdefault("gf", tomo.GateFidelity(n, base, experiment))
                 f = gf.process(target)
                 ctx.count("gate_fidelity_postconditions")
                 want = (abs(np.trace(target.conj().T @ v)) ** 2 + d) / (d * (d + 1))
@@ -151,6 +155,22 @@ def run(ctx):
                 if abs(f - want) > 1e-8:
                     ctx.violation(f"gate fidelity {f:.9f}, average gate fidelity formula gives {want:.9f} (target {kind})",
                                   case=case, mechanism="gate_fidelity:" + kind, monitor="GateFidelity.process post-condition")
+            # the same long-lived tomography object after its base circuit was edited in place
+            if reuse_round == 0 and rng.random() < 0.35 and (n == 1 or method != "MLE"):
+                reuse_round = 1
+                qi = int(rng.integers(n))
+                gate, desc = random_1q(lw, rng)
+                base.add(gate, base_off + 2 * qi)
+                log.append(desc + [qi, "added in place after the first process()"])
+                case["reused_after_in_place_edit"] = True
+                ctx.bucket("tomography_object_reused_after_edit")
+                m = tomoref.dual_rail_matrix(base, n)
+                v, c, dev = tomoref.normalised_unitary(m)
+                if v is None or dev > 1e-8:
+                    break
+                fp = circmon.circuit_fingerprint(base, with_unitary=True)
+                continue
+            break
         except Exception as e:  # noqa: BLE001
             ctx.violation(f"{method} raised {type(e).__name__}: {e}", case=case,
                           mechanism="process_tomography_raised:" + method + ":" + type(e).__name__, monitor="driver")
